@@ -584,6 +584,8 @@ impl WalkBuilder {
             max_filesize: self.max_filesize,
             skip: self.skip.clone(),
             filter: self.filter.clone(),
+            same_file_system: self.same_file_system,
+            root_device: None,
         }
     }
 
@@ -917,6 +919,10 @@ pub struct Walk {
     max_filesize: Option<u64>,
     skip: Option<Arc<Handle>>,
     filter: Option<Filter>,
+    same_file_system: bool,
+    /// The device of the root currently being traversed. Only set when
+    /// `same_file_system` is enabled.
+    root_device: Option<u64>,
 }
 
 impl Walk {
@@ -967,6 +973,17 @@ impl Walk {
         }
         Ok(false)
     }
+
+    /// Returns false if walkdir does not descend into the given directory
+    /// because it is on a different file system than the current root.
+    fn is_entered_by_walkdir(&self, ent: &DirEntry) -> bool {
+        match self.root_device {
+            Some(root_device) if ent.depth() > 0 => {
+                is_same_file_system(root_device, ent.path()).unwrap_or(true)
+            }
+            _ => true,
+        }
+    }
 }
 
 impl Iterator for Walk {
@@ -985,6 +1002,11 @@ impl Iterator for Walk {
                         }
                         Some((path, Some(it))) => {
                             self.it = Some(it);
+                            self.root_device = if self.same_file_system {
+                                device_num(&path).ok()
+                            } else {
+                                None
+                            };
                             if path.is_dir() {
                                 let (ig, err) = self.ig_root.add_parents(path);
                                 self.ig = ig;
@@ -1013,7 +1035,13 @@ impl Iterator for Walk {
                         Ok(should_skip) => should_skip,
                     };
                     if should_skip {
-                        self.it.as_mut().unwrap().it.skip_current_dir();
+                        // walkdir yields a directory on another file system
+                        // without entering it. There is nothing to skip
+                        // then, and skipping anyway would drop the rest of
+                        // the parent directory.
+                        if self.is_entered_by_walkdir(&ent) {
+                            self.it.as_mut().unwrap().it.skip_current_dir();
+                        }
                         // Still need to push this on the stack because
                         // we'll get a WalkEvent::Exit event for this dir.
                         // We don't care if it errors though.
